@@ -9,7 +9,8 @@ from ..observe import dv_meta, lcg_vectors
 ID = 'C08'
 RULE = ('cases = generated DSG spec (G-SEL u G-CONN with grouping nodes over conditional members emphasised, design-variable '
         'and metric nodes) x a history of 3-10 derive operations over a pool of live graph objects {copy, apply a '
-        'selection choice, apply a connection choice with an enumerated edge set, constrain choices on a copy, set a '
+        'selection choice, apply a connection choice with an enumerated edge set, constrain 2-3 choices on a copy with any of '
+        'the four constraint types (also unsatisfiable sizes), set a '
         'design-variable / metric value on a copy or on a derived graph, decode an instance through a processor, iterate '
         'the connection sets}; every pool member carries the snapshot taken when it was created (nodes, edge multiset, '
         'feasible, final, next choices, option lists, valid connection sets, stored design-variable and metric values) '
@@ -19,7 +20,7 @@ RULE = ('cases = generated DSG spec (G-SEL u G-CONN with grouping nodes over con
 FUZZ_MODULES = ['adsg_core.graph.adsg', 'adsg_core.graph.adsg_basic', 'adsg_core.graph.choices', 'adsg_core.graph.traversal']   # thorough tier: atheris campaign over these modules (vf/fuzz.py)
 FUZZ_RUNS = 1500
 BUDGET = {'quick': 200, 'thorough': 8000}
-OPS = ['copy', 'apply_sel', 'apply_sel', 'apply_sel', 'apply_conn', 'apply_conn', 'constrain', 'set_dv', 'set_metric',
+OPS = ['copy', 'apply_sel', 'apply_sel', 'apply_sel', 'apply_conn', 'apply_conn', 'constrain', 'constrain', 'set_dv', 'set_metric',
        'decode', 'decode', 'iterate']
 
 
@@ -137,7 +138,12 @@ def check_case(case):
                 groups = [v for v in by_n.values() if len(v) >= 2]
                 if groups:
                     cp = g.copy()
-                    new = cp.constrain_choices(ChoiceConstraintType.LINKED, groups[a % len(groups)][:2])
+                    # every constraint type, over 2 or 3 choices (also unsatisfiable sizes: more choices than options
+                    # for PERMUTATION / UNORDERED_NOREPL leaves choices without options on the copy)
+                    ctype = [ChoiceConstraintType.LINKED, ChoiceConstraintType.PERMUTATION, ChoiceConstraintType.UNORDERED,
+                             ChoiceConstraintType.UNORDERED_NOREPL][c % 4]
+                    grp_ = groups[a % len(groups)]
+                    new = cp.constrain_choices(ctype, grp_[:3] if (c // 4) % 2 and len(grp_) >= 3 else grp_[:2])
                     interesting = True
             elif op == 'set_dv':
                 dvs = sorted(g.des_var_nodes, key=b.nm)
